@@ -111,7 +111,7 @@ def programs(tier, rnd):
     # micro-programs
     import sem
     c = os.path.join(wd, "sg.cfg")
-    open(c, "w").write("SPECIFICATION Spec\nCONSTANTS\n  MaxSteps = 8\n  MaxLen = 24\n  Template = TRUE\nINVARIANT Emit\nCHECK_DEADLOCK FALSE\n")
+    open(c, "w").write("SPECIFICATION Spec\nCONSTANTS\n  MaxSteps = 8\n  MaxLen = 24\n  Template = TRUE\n  Arrays = FALSE\nINVARIANT Emit\nCHECK_DEADLOCK FALSE\n")
     g3 = run_tlc("SemGen", c, "c04", workers=4, cases_suffix="-sg")
     sk = list(read_ndjson(g3.cases_path))
     for i, x in enumerate(rnd.sample(sk, min(n, len(sk)))):
